@@ -58,14 +58,16 @@ def run(rep, tier):
                 fields = [fl["n"] for fl in r["fields"]]
                 statics = [sv["n"] for sv in r.get("svars", [])]
                 inst = "%s | %s" % (db.label, r["n_full"][:100])
-                if "func_ptr_map" in statics or not any("func_ptr" in x or "symbol" in x for x in fields):
+                maps = [fl["n"] for fl in r["fields"] if ((fl["t"] or {}).get("c") or "").startswith("std::map<")]
+                smaps = [sv["n"] for sv in r.get("svars", []) if ((sv.get("t") or {}).get("c") or "").startswith("std::map<")]
+                if smaps or not maps:
                     rep.violation("R-C11-cache", SB, "the symbol cache is not a per-instance member (fields %s)" % [x for x in fields if "ptr" in x], r["loc"], inst)
                 else:
                     rep.ok("R-C11-cache", SB, "symbol cache is a non-static member", inst, nontrivial=False)
                 # the cache must own its keys: a key that merely views the caller's buffer changes when that buffer is reused
                 for fl in r["fields"]:
                     c = (fl["t"] or {}).get("c") or ""
-                    if fl["n"].endswith("func_ptr_map") and c.startswith("std::map<"):
+                    if c.startswith("std::map<"):
                         key = c[len("std::map<"):]
                         if key.startswith("std::basic_string<") or key.startswith("std::string,") or key.startswith("std::__cxx11::basic_string<"):
                             rep.ok("R-C11-cache", SB + " [key ownership]", "cache '%s' owns its keys (%s)" % (fl["n"], c[:60]), inst)
